@@ -284,7 +284,7 @@ def T0 : Table := [⟨0, none, [⟨10, 50, false, false⟩, ⟨11, 51, false, tr
 def env0 : Env where
   valid := fun o => match o.get 10 with | some v => v.truthy | none => false
   ctorFails := fun _ kw => (lookup kw 11).isSome
-  ctorValue := fun _ _ v => match v with | some x => x | none => .none
+  ctorValue := fun _ n v => match v with | some x => x | none => if n == 12 then .list [] else .none
   cellCls := 99
   setupCell := id
 def good : Kwargs := [(10, .atom "str:'a'" true), (13, .atom "str:'b'" true)]
